@@ -155,6 +155,9 @@ func runChild(job childJob) ([]blockResult, error) {
 		return nil, err
 	}
 	cmd := exec.Command(exe, "replica-child")
+	// the separate process runs in a different process ENVIRONMENT: local time zone 14 hours ahead of UTC (falls back to
+	// UTC where the zone database is missing), another locale and home directory — none of it is a block input
+	cmd.Env = append(os.Environ(), "TZ=Pacific/Kiritimati", "LANG=tr_TR.UTF-8", "LC_ALL=tr_TR.UTF-8", "HOME=/nonexistent/verif-child-home")
 	in, err := json.Marshal(job)
 	if err != nil {
 		return nil, err
@@ -588,6 +591,25 @@ func replicasDriver(cfg Config, out *Out) error {
 			blk := g.block(b)
 			blk.Pre = pg.pre[b]
 			in.Blocks = append(in.Blocks, blk)
+		}
+		if child && nb >= 3 && cr.Chance(60) {
+			// a jump of the block time into the hours around a new year (UTC) where the calendar year of a local time
+			// zone differs from the UTC year, across leap / non-leap boundaries; the following blocks stay inside
+			j := 1 + cr.Intn(nb-2)
+			t := genesisTime.Unix()
+			for b := 0; b < j; b++ {
+				t += in.Blocks[b].DT
+			}
+			year := []int{2024, 2025, 2028, 2029}[cr.Intn(4)]
+			target := time.Date(year, 1, 1, 0, 0, 0, 0, time.UTC).Unix() - int64(cr.Intn(14*3600)) + int64(cr.Intn(3))*3600
+			if target > t {
+				in.Blocks[j].DT = target - t
+				for b := j + 1; b < nb; b++ {
+					if in.Blocks[b].DT > 3600 {
+						in.Blocks[b].DT = int64(1 + cr.Intn(600))
+					}
+				}
+			}
 		}
 		out.Emit(repRunCase(fmt.Sprintf("s%d-%d", cfg.Seed, i), in, g, pg, nrep, child, cr))
 	}
